@@ -197,17 +197,47 @@ func enclosingChain(b *ssa.BasicBlock, top *ssa.Function) []*ssa.Function {
 // facts established by branch edges, including edges of `if <IIFE>() {`
 
 type fact struct {
-	isV  func(ssa.Value) bool
-	kind string // "bool" or "nil"
-	want bool   // bool: the value; nil: true = value is nil
+	isV   func(ssa.Value) bool
+	kind  string // "bool", "nil" or "edge"
+	want  bool   // bool: the value; nil: true = value is nil
+	edges map[cfgEdge]bool
+	// kind "int": the integer satisfying isV (known to be >= domMin) lies in [lo, hi]
+	domMin, lo, hi int64
 }
 
-func factBool(isV func(ssa.Value) bool, want bool) fact   { return fact{isV, "bool", want} }
-func factNil(isV func(ssa.Value) bool, wantNil bool) fact { return fact{isV, "nil", wantNil} }
+// factInt: an integer value lies within [lo, hi] (given that it is never below domMin).
+func factInt(isV func(ssa.Value) bool, domMin, lo, hi int64) fact {
+	return fact{isV: isV, kind: "int", domMin: domMin, lo: lo, hi: hi}
+}
+
+// factEdges: "control passed one of these branch edges" (e.g. a particular select arm was taken); through
+// iifeImplies this also covers `if !helper() { … }` where the helper returns false exactly on that arm.
+func factEdges(es ...cfgEdge) fact {
+	m := map[cfgEdge]bool{}
+	for _, e := range es {
+		m[e] = true
+	}
+	return fact{kind: "edge", edges: m}
+}
+
+func factBool(isV func(ssa.Value) bool, want bool) fact {
+	return fact{isV: isV, kind: "bool", want: want}
+}
+func factNil(isV func(ssa.Value) bool, wantNil bool) fact {
+	return fact{isV: isV, kind: "nil", want: wantNil}
+}
 
 // directEdge: the successor of ifi on which the fact holds by ifi's own condition.
 func directEdge(ifi *ssa.If, f fact) (int, bool) {
 	switch f.kind {
+	case "int":
+		return intEdge(ifi, f.isV, f.domMin, f.lo, f.hi)
+	case "edge":
+		for e := 0; e < 2; e++ {
+			if f.edges[cfgEdge{ifi.Block(), e}] {
+				return e, true
+			}
+		}
 	case "bool":
 		if s, ok := boolEdge(ifi, f.isV); ok {
 			if f.want {
@@ -441,7 +471,7 @@ func predEstablishes(pred, to *ssa.BasicBlock, f fact, fn *ssa.Function) bool {
 // unbounded recursion).
 func factGuardsShallow(fn *ssa.Function, target *ssa.BasicBlock, f fact) bool {
 	for _, fnc := range enclosingChain(target, fn) {
-		for _, ifi := range ifsIn(fnc) {
+		for _, ifi := range ifsInOnly(fnc) {
 			if s, ok := directEdge(ifi, f); ok && edgeDominates(ifi.Block(), s, target) {
 				return true
 			}
@@ -453,7 +483,7 @@ func factGuardsShallow(fn *ssa.Function, target *ssa.BasicBlock, f fact) bool {
 // factGuards: target is dominated by an edge establishing the fact.
 func factGuards(fn *ssa.Function, target *ssa.BasicBlock, f fact) bool {
 	for _, fnc := range enclosingChain(target, fn) {
-		for _, ifi := range ifsIn(fnc) {
+		for _, ifi := range ifsInOnly(fnc) {
 			for e := 0; e < 2; e++ {
 				if edgeEstablishes(ifi, e, f) && edgeDominates(ifi.Block(), e, target) {
 					return true
@@ -468,20 +498,22 @@ func factGuards(fn *ssa.Function, target *ssa.BasicBlock, f fact) bool {
 // edge itself or already guaranteed at the If's block).
 func edgesWhereAll(fn *ssa.Function, facts ...fact) []cfgEdge {
 	var out []cfgEdge
-	for _, ifi := range ifsIn(fn) {
-		for e := 0; e < 2; e++ {
-			all, any := true, false
-			for _, f := range facts {
-				if edgeEstablishes(ifi, e, f) {
-					any = true
-					continue
+	for _, rf := range regionFuncs(fn) {
+		for _, ifi := range ifsInOnly(rf) {
+			for e := 0; e < 2; e++ {
+				all, any := true, false
+				for _, f := range facts {
+					if edgeEstablishes(ifi, e, f) {
+						any = true
+						continue
+					}
+					if !factGuards(fn, ifi.Block(), f) {
+						all = false
+					}
 				}
-				if !factGuards(fn, ifi.Block(), f) {
-					all = false
+				if all && any {
+					out = append(out, cfgEdge{ifi.Block(), e})
 				}
-			}
-			if all && any {
-				out = append(out, cfgEdge{ifi.Block(), e})
 			}
 		}
 	}
